@@ -81,6 +81,10 @@ CHECKS = {
    technique="explicit-state BFS over operation histories of the real VirtQueue combined with exhaustive enumeration of observation instants inside each call: queue memory is page-protected and every driver instruction touching it is single-stepped (mprotect + SIGSEGV + x86 trap flag), with a snapshot after each; no source hooks",
    text="For every history up to the stated depth (direct and indirect, event-idx on/off, legacy and modern layout, index wrap offsets) and every instant after a machine instruction of the compiled driver that stored to the descriptor table or available ring: the available index the device could read never decreases or skips, everything below it (ring slot, descriptors, indirect table already shared) is complete and identical to its final form, the index store is the last store of a submission, and chains that are available but not completed are never disturbed by later calls.",
    note="Sequentially consistent observer at instruction granularity on x86-64; reorderings that only a weakly ordered CPU would expose are outside what this explorer can see. Trusts the tracer (lab/src/tracer.rs) and the reference ring walker."),
+ "C07": dict(level="fault_enumeration", design="DESIGN.md §4 C07",
+   technique="deviation-bounded DFS over a device-fault alphabet (used ids, lengths, index jumps, scribbling, response and receive contents) applied at every device action point of the raw VirtQueue and of short scripts of every driver, on the real code; store tracer for read-independence, differential re-run without scribbling, platform-ledger and slice-containment oracles, fatal-signal reporter; absurd configuration values each in an isolated child process",
+   text="All executions with up to the stated number of device misbehaviours: every call must end in a result, an error or a caught panic (a fatal signal is reported with the execution's choice prefix; a wait that cannot end although the device answers honestly again is a livelock), no buffer or DMA region is unshared or released twice or with other arguments, every slice handed to the caller lies inside a buffer that was shared with the device, the driver never loads from the descriptor table or available ring (instruction-level tracer), and caller-visible results are identical with and without scribbling over those areas.",
+   note="The adversary is finitely bad. A caught panic ends a script (state after a panic is unspecified). Silent heap corruption that none of the oracles expose is not detected in the quick tier. Two recorded known findings (device-controlled allocation in VirtIOSound::new)."),
 }
 
 NOT_YET = "check not built yet in this round (machinery under construction; see DESIGN.md)"
